@@ -427,6 +427,7 @@ def rule_08_7(rep, fx):
 
     rule_08_8(rep, fx)
     rule_sort_before_limit(rep, fx, 'R08.9')
+    rule_08_11(rep, fx)
 
 
 def rule_08_8(rep, fx):
@@ -595,3 +596,48 @@ def rule_sort_before_limit(rep, fx, rid):
                     n_tr += 1
     rep.check(n_tr >= 6, rid, 'DataReader/truncate-after-select', '%d bounded accesses truncate the sorted selection' % n_tr,
               'only %d of the bounded DataReader accesses cut the selection after it was sorted (6 on the reference tree)' % n_tr, '')
+
+
+def rule_08_11(rep, fx):
+    """read* must not consume, take* must: the DataReader entry points and the no_key wrappers call the access primitive of their own kind."""
+    rep.rule('R08.11', 'read/take pairing at the DataReader layer: every with_key DataReader method named read* reaches the cache only through read_*_by_keys (never take_*), every take* only '
+                       'through take_*_by_keys; *_instance use the instance selection; *_next_sample ask for one NotRead sample of their own kind; each no_key method forwards to the '
+                       'with_key method of the same name')
+    n = 0
+    for b in fx.bodies:
+        if b.kind not in ('fn', 'assoc_fn'):
+            continue
+        wk = b.key.startswith('dds::with_key::datareader::DataReader::')
+        nk = b.key.startswith('dds::no_key::datareader::DataReader::')
+        if not (wk or nk):
+            continue
+        name = b.name
+        kind = 'read' if name.startswith('read') else 'take' if name.startswith('take') else None
+        if kind is None or name.endswith('_by_keys') or 'notification' in name:
+            continue
+        other = 'take' if kind == 'read' else 'read'
+        callees = [strip_generics(callee_res(t)) for _bb, t in b.calls()]
+        acc = [c for c in callees if c.rsplit('::', 1)[-1].startswith(('read', 'take')) and ('DataReader' in c or 'DataSampleCache' in c or c.startswith('dds::'))]
+        acc_names = [c.rsplit('::', 1)[-1] for c in acc]
+        n += 1
+        rep.analysed(b)
+        same = [a for a in acc_names if a.startswith(kind)]
+        wrong = [a for a in acc_names if a.startswith(other)]
+        ok = bool(same) and not wrong
+        detail = 'calls %s' % sorted(set(acc_names))
+        if wk and name.endswith('_instance'):
+            ok = ok and any(c.endswith('select_instance_keys_for_access') for c in callees)
+        elif wk and not name.endswith('_next_sample'):
+            ok = ok and any(c.endswith('select_keys_for_access') for c in callees)
+        if name.endswith('_next_sample'):
+            ok = ok and any(c.endswith('ReadCondition::not_read') for c in callees) and same == [kind]
+            og = Origins(b)
+            for bb, t in b.calls():
+                if strip_generics(callee_res(t)).rsplit('::', 1)[-1] == kind and len(t['args']) >= 2:
+                    ok = ok and og.of_operand(t['args'][1], bb, 'term') == ('const', 'int', 1)
+        if nk and not name.endswith('_next_sample'):
+            # forwards to the keyed method of the same name
+            ok = ok and any(c.startswith('dds::with_key::datareader::DataReader') and c.rsplit('::', 1)[-1] == name for c in callees)
+        rep.check(ok, 'R08.11', '%s::%s' % ('with_key' if wk else 'no_key', name), detail,
+                  '%s reaches the sample cache through %s: a read that removes samples, a take that leaves them, or the wrong selection' % (b.key, sorted(set(acc_names)) or 'nothing'), b.where())
+    rep.floor('R08.11', n, 12, 'read*/take* entry points of the with_key and no_key DataReader')
